@@ -62,3 +62,24 @@ func (st *Store) MutableTreeForVerif() *MutableTree {
 	}
 	return nil
 }
+
+// DumpKVForVerif returns the key/value pairs of the tree behind the store (mutable or immutable) by a
+// synchronous in-order walk.  Unlike Store.Iterator it starts no goroutine, so a panic raised while a
+// child node is loaded (e.g. a node missing from the DB) reaches the caller and can be recovered there.
+func (st *Store) DumpKVForVerif() (kvs [][2][]byte) {
+	var it *ImmutableTree
+	switch tree := st.tree.(type) {
+	case *immutableTree:
+		it = tree.ImmutableTree
+	case *MutableTree:
+		it = tree.ImmutableTree
+	}
+	if it == nil {
+		return nil
+	}
+	it.Iterate(func(k, v []byte) bool {
+		kvs = append(kvs, [2][]byte{k, v})
+		return false
+	})
+	return kvs
+}
